@@ -78,7 +78,11 @@ func (g *gen) intExpr() string {
 
 func (g *gen) intConstraint() string {
 	g.feat("constraint")
-	return common.Pick(g.r, []string{"int", ">=0 & <100", "int & >5", "*3 | int", "1 | 2 | *3", ">=0 | *-1", "number", "*1 | 2 | 3", "int | *\"none\"", "<10 | >20"})
+	// No non-concrete conjunctions such as `int & >5` or `>=0 & <100` here: they are the trigger of known
+	// finding F10 (export sorts the shared Conjunction in place; concurrent readers can even see a wrong kind).
+	// That class is exercised by corpus/C19/f10_conjunction_sort.cue on every run; the generated programs stay
+	// in the domain on which the unchanged tree has been validated.
+	return common.Pick(g.r, []string{"int", ">=0", "<100", "*3 | int", "1 | 2 | *3", ">=0 | *-1", "number", "*1 | 2 | 3", "int | *\"none\"", "<10 | >20"})
 }
 
 func (g *gen) strExpr() string {
